@@ -98,11 +98,25 @@ def typeNameOf (stem : Str) (withPlugins : Bool) : Option TypeName :=
 
 def padTo6 (cells : List Str) : List Str := (cells ++ List.replicate 6 []).take 6
 
-/-- the field declared by a field row (`add_field_format_row` up to `add_field_format`) -/
-def buildField (cid : Cid) (cells : List Str) (withPlugins : Bool) : Out CidField := do
-  let df ← match cid.dataFormat with
-    | none => .error .iface
-    | some d => pure d
+/-- "Validate field length" of `add_field_format_row`: fixed width fields need one specific length of
+at least 1, other formats a length without negative limits -/
+def lengthDeclOk (fmt : Format) (length : Range) : Out Unit :=
+  if fmt == .fixed then
+    if (length.items.getD []).isEmpty then .error .iface
+    else match length.lowerLimit with
+      | none => .error .iface
+      | some l =>
+        if length.upperLimit != some l then .error .iface
+        else if l < 1 then .error .iface else pure ()
+  else match length.lowerLimit with
+    | some l => if l < 0 then .error .iface else pure ()
+    | none => match length.upperLimit with
+      | some u => if u < 0 then .error .iface else pure ()
+      | none => pure ()
+
+/-- the cells of a field row up to the declared field format (`field_format.__init__`) -/
+def declareCells (df : DataFormat) (cid : Cid) (cells : List Str) (withPlugins : Bool) :
+    Out (Str × Str × Str × Str × Field) := do
   let items := padTo6 cells
   let name ← validatedFieldName (items.getD 0 [])
   if cid.fields.any (fun f => f.name == name) then .error .iface
@@ -122,25 +136,28 @@ def buildField (cid : Cid) (cells : List Str) (withPlugins : Bool) : Out CidFiel
   let rule := strip (items.getD 5 [])
   let info : FormatInfo := { format := df.format, allowed := df.allowed, decimalSep := df.decimalSep, thousandsSep := df.thousandsSep }
   let field ← declareFieldIn tn info allowEmpty lengthText rule
-  -- validate the declared length
-  if df.format == .fixed then
-    if (field.length.items.getD []).isEmpty then .error .iface
-    else if field.length.lowerLimit != field.length.upperLimit then .error .iface
-    else match field.length.lowerLimit with
-      | some l => if l < 1 then .error .iface else pure ()
-      | none => .error .typeErr          -- `None < 1`
-  else match field.length.lowerLimit with
-    | some l => if l < 0 then .error .iface else pure ()
-    | none => match field.length.upperLimit with
-      | some u => if u < 0 then .error .iface else pure ()
-      | none => pure ()
-  -- the example must be accepted by the field itself
+  pure (name, stem, rule, exampleCell, field)
+
+/-- the example of a field row must be accepted by the field itself -/
+def exampleOk (field : Field) (exampleCell : Str) : Out Unit :=
   if !exampleCell.isEmpty then
     match field.validated exampleCell with
     | .error e => .error e
     | .ok none => .error .iface
     | .ok (some _) => pure ()
+  else pure ()
+
+def buildFieldWith (df : DataFormat) (cid : Cid) (cells : List Str) (withPlugins : Bool) : Out CidField := do
+  let (name, stem, rule, exampleCell, field) ← declareCells df cid cells withPlugins
+  lengthDeclOk df.format field.length
+  exampleOk field exampleCell
   pure ⟨name, stem, rule, field⟩
+
+/-- the field declared by a field row (`add_field_format_row` up to `add_field_format`) -/
+def buildField (cid : Cid) (cells : List Str) (withPlugins : Bool) : Out CidField :=
+  match cid.dataFormat with
+  | none => .error .iface
+  | some df => buildFieldWith df cid cells withPlugins
 
 /-- `add_field_format_row`: the new field is appended, nothing else changes -/
 def addFieldRow (cid : Cid) (cells : List Str) (withPlugins : Bool) : Out Cid :=
